@@ -48,18 +48,29 @@ def build(targets=("Ds", "DsProofs", "dsdriver"), timeout=3000):
         lock.close()
 
 
-def source_audit():
-    """forbidden tokens in any Lean source of the project (comments stripped)."""
-    hits = []
-    for root, _, files in os.walk(LEAN_DIR):
-        if ".lake" in root:
+def _closure():
+    """Lean files of this project reachable from the build roots (Ds, DsProofs, Driver, Audit)"""
+    seen, todo = set(), ["Ds", "DsProofs", "Driver", "Audit"]
+    while todo:
+        m = todo.pop()
+        path = os.path.join(LEAN_DIR, m.replace(".", "/") + ".lean")
+        if m in seen or not os.path.exists(path):
             continue
-        for f in files:
-            if f.endswith(".lean"):
-                p = os.path.join(root, f)
-                src = _strip_comments(open(p).read())
-                for m in FORBIDDEN.finditer(src):
-                    hits.append((os.path.relpath(p, LEAN_DIR), m.group(0).strip()))
+        seen.add(m)
+        for line in open(path):
+            mm = re.match(r"\s*import\s+([A-Za-z0-9_.]+)", line)
+            if mm:
+                todo.append(mm.group(1))
+    return sorted(os.path.join(LEAN_DIR, m.replace(".", "/") + ".lean") for m in seen)
+
+
+def source_audit():
+    """forbidden tokens in any Lean source that is part of the build (comments stripped)."""
+    hits = []
+    for p in _closure():
+        src = _strip_comments(open(p).read())
+        for m in FORBIDDEN.finditer(src):
+            hits.append((os.path.relpath(p, LEAN_DIR), m.group(0).strip()))
     return hits
 
 
